@@ -393,4 +393,4 @@ func rigItoa(i int) string { return strconv.Itoa(i) }
 // newRigSock returns a fresh fake UDP socket (for client ConnFactories).
 func newRigSock(name string, port int) *vnet.PacketConn { return vnet.NewPacketConn(name, port) }
 
-func getenvTier() string { return os.Getenv("VERIF_TIER") }
+func rigGetenvTier() string { return os.Getenv("VERIF_TIER") }
